@@ -13,6 +13,7 @@ DECIDED += "; R6 = C05-R7 (link deliveries are timed on a tokio clock that must 
 DECIDED += '; R2 also: per-link overrides (top::Link::config) are written only through Link::latency / Link::message_loss; R5 also for_pairs'
 DECIDED += '; R1 also: the width of the latency window is computed with a saturating subtraction (a maximum below the inherited minimum is a reachable configuration)'
 DECIDED += '; R2 also: a setter stores its argument (no normalisation against the inherited minimum)'
+DECIDED += '; a release reschedules only held messages (shared C08-R14), in-flight messages are purged only by a partition (shared C03-R3), the receive slot is filled only when empty (shared C09-R6)'
 ASSUMPTIONS = ["std::cmp::min / Duration arithmetic behave as documented"]
 
 LAT = "turmoil::config::Latency"
